@@ -8,6 +8,8 @@ import FV.Proofs.Headers
 import FV.Proofs.Thrift
 import FV.Props.C04
 
+set_option linter.unusedSimpArgs false
+
 namespace FV.PubSub
 open FV FV.Thrift
 
@@ -133,5 +135,319 @@ theorem recv_cbs (c : SubCfg) (w : WState) (k : Worker) (p : Packet) (ha : w.ali
     | discarded => simp [he]; unfold callback at hh; split at hh <;> (try cases hh); split at hh <;> (try cases hh); split at hh <;> (try cases hh); split at hh <;> (try cases hh); split at hh <;> cases hh
     | failed e => simp [he]
     | crashed q => rw [hh] at hc; simp [Outcome.isCrash] at hc
+
+theorem nodup_map_inj {α β : Type} (f : α → β) (hf : ∀ a b, f a = f b → a = b) :
+    ∀ l : List α, l.Nodup → (l.map f).Nodup := by
+  intro l
+  induction l with
+  | nil => intro _; exact List.nodup_nil
+  | cons x t ih =>
+    intro h
+    rw [List.nodup_cons] at h
+    rw [List.map_cons, List.nodup_cons]
+    refine ⟨?_, ih h.2⟩
+    intro hm
+    obtain ⟨y, hy, hxy⟩ := List.mem_map.mp hm
+    rw [hf y x hxy] at hy
+    exact h.1 hy
+
+/-! ### interleavings -/
+
+theorem flatten_nil_of_all_nil {α : Type} (ls : List (List α)) (h : ∀ l ∈ ls, l = []) : ls.flatten = [] := by
+  induction ls with
+  | nil => rfl
+  | cons a t ih =>
+    rw [List.flatten_cons, h a (List.mem_cons_self), ih (fun l hl => h l (List.mem_cons_of_mem _ hl))]
+    rfl
+
+theorem merge_perm {α : Type} (ls : List (List α)) (out : List α) (h : Merge ls out) : out.Perm ls.flatten := by
+  induction h with
+  | done ls h => rw [flatten_nil_of_all_nil ls h]
+  | take pre x t post out _ ih =>
+    simp only [List.flatten_append, List.flatten_cons, List.cons_append] at ih ⊢
+    exact (List.Perm.cons x ih).trans (List.perm_middle.symm)
+
+theorem flatten_map_filterMap {α β : Type} (f : α → Option β) (ls : List (List α)) :
+    (ls.map (List.filterMap f)).flatten = ls.flatten.filterMap f := by
+  induction ls with
+  | nil => rfl
+  | cons a t ih =>
+    rw [List.map_cons, List.flatten_cons, List.flatten_cons, List.filterMap_append, ih]
+
+/-! ### the life cycle: what one action does -/
+
+theorem filterMap_singleton_toList {α β : Type} (f : α → Option β) (p : α) : [p].filterMap f = (f p).toList := by
+  cases h : f p <;> simp [h]
+
+/-- One enabled action extends the log by `e`, the history by `n`, and what is still owed
+(`e ++ queue'`) is a sub-list of what was owed plus what arrived. -/
+theorem step_ext (c : SubCfg) (topic : Topic) (s s' : St) (a : Act) (h : step c topic s a = some s') :
+    ∃ e n, s'.w.log = s.w.log ++ e ∧ s'.accepted = s.accepted ++ n ∧
+      (e ++ s'.queue.filterMap (deliver c)).Sublist (s.queue.filterMap (deliver c) ++ n.filterMap (deliver c)) ∧
+      (s.subscribed = false → n = []) ∧ (s.subscribed = false → s'.subscribed = false) := by
+  cases a with
+  | publish m =>
+    simp only [step] at h
+    by_cases hc : s.subscribed ∧ m.topic = topic
+    · rw [if_pos hc] at h
+      cases h
+      refine ⟨[], [m.pkt], by simp, rfl, ?_, ?_, ?_⟩
+      · simp [List.filterMap_append]
+      · intro hs; rw [hs] at hc; simp at hc
+      · intro hs; exact hs
+    · rw [if_neg hc] at h
+      cases h
+      exact ⟨[], [], by simp, by simp, by simp, fun _ => rfl, fun hs => hs⟩
+  | work =>
+    simp only [step] at h
+    cases hq : s.queue with
+    | nil => rw [hq] at h; cases h
+    | cons p q =>
+      rw [hq] at h
+      cases h
+      -- what recv does to the log
+      have hlog : ∃ e, (s.w.recv c p).log = s.w.log ++ e ∧ e.Sublist (deliver c p).toList := by
+        unfold WState.recv deliver
+        by_cases ha : s.w.alive = true
+        · simp only [ha, Bool.not_true]
+          cases hh : handle c p with
+          | delivered dl => exact ⟨[dl], by simp, by simp [Outcome.delivery?]⟩
+          | discarded => exact ⟨[], by simp, by simp⟩
+          | failed e => exact ⟨[], by simp, by simp⟩
+          | crashed q => exact ⟨[], by simp, by simp⟩
+        · have : s.w.alive = false := by cases h : s.w.alive <;> simp_all
+          simp only [this]
+          exact ⟨[], by simp, by simp⟩
+      obtain ⟨e, he, hsub⟩ := hlog
+      refine ⟨e, [], he, by simp, ?_, fun _ => rfl, fun hs => hs⟩
+      simp only [List.filterMap_nil, List.append_nil]
+      have : (p :: q).filterMap (deliver c) = (deliver c p).toList ++ q.filterMap (deliver c) := by
+        cases hd : deliver c p <;> simp [hd]
+      rw [this]
+      exact List.Sublist.append hsub (List.Sublist.refl _)
+  | unsubscribe =>
+    simp only [step] at h
+    cases h
+    exact ⟨[], [], by simp, by simp, by simp, fun _ => rfl, fun _ => rfl⟩
+  | abandon =>
+    simp only [step] at h
+    by_cases hq : s.quit = true
+    · rw [if_pos hq] at h
+      cases h
+      exact ⟨[], [], by simp, by simp, by simp, fun _ => rfl, fun hs => hs⟩
+    · rw [if_neg hq] at h; cases h
+
+/-- Any schedule from any state. -/
+theorem run_ext (c : SubCfg) (topic : Topic) (as : List Act) : ∀ (s s' : St), run c topic s as = some s' →
+    ∃ e n, s'.w.log = s.w.log ++ e ∧ s'.accepted = s.accepted ++ n ∧
+      (e ++ s'.queue.filterMap (deliver c)).Sublist (s.queue.filterMap (deliver c) ++ n.filterMap (deliver c)) ∧
+      (s.subscribed = false → n = []) := by
+  induction as with
+  | nil =>
+    intro s s' h
+    simp only [run] at h
+    cases h
+    exact ⟨[], [], by simp, by simp, by simp, fun _ => rfl⟩
+  | cons a t ih =>
+    intro s s' h
+    simp only [run] at h
+    cases hs : step c topic s a with
+    | none => rw [hs] at h; cases h
+    | some s1 =>
+      rw [hs] at h
+      obtain ⟨e0, n0, hl0, ha0, hsub0, hn0, hu0⟩ := step_ext c topic s s1 a hs
+      obtain ⟨e1, n1, hl1, ha1, hsub1, hn1⟩ := ih s1 s' h
+      refine ⟨e0 ++ e1, n0 ++ n1, ?_, ?_, ?_, ?_⟩
+      · rw [hl1, hl0, List.append_assoc]
+      · rw [ha1, ha0, List.append_assoc]
+      · rw [List.filterMap_append, List.append_assoc]
+        have h1 : (e0 ++ (e1 ++ s'.queue.filterMap (deliver c))).Sublist
+            (e0 ++ (s1.queue.filterMap (deliver c) ++ n1.filterMap (deliver c))) :=
+          List.Sublist.append (List.Sublist.refl _) hsub1
+        have h2 : (e0 ++ (s1.queue.filterMap (deliver c) ++ n1.filterMap (deliver c))).Sublist
+            ((s.queue.filterMap (deliver c) ++ n0.filterMap (deliver c)) ++ n1.filterMap (deliver c)) := by
+          rw [← List.append_assoc]
+          exact List.Sublist.append hsub0 (List.Sublist.refl _)
+        rw [← List.append_assoc (s.queue.filterMap (deliver c))]
+        exact h1.trans h2
+      · intro hf
+        rw [hn0 hf, hn1 (hu0 hf)]
+        rfl
+
+/-- The history is exactly what the broker handed over for the publishes before the first unsubscribe. -/
+theorem run_accepted (c : SubCfg) (topic : Topic) (as : List Act) : ∀ (s s' : St), run c topic s as = some s' →
+    s.subscribed = true → s'.accepted = s.accepted ++ brokerDeliver topic (pubsBeforeUnsub as) := by
+  induction as with
+  | nil => intro s s' h _; simp only [run] at h; cases h; simp [pubsBeforeUnsub, brokerDeliver]
+  | cons a t ih =>
+    intro s s' h hsub
+    simp only [run] at h
+    cases hs : step c topic s a with
+    | none => rw [hs] at h; cases h
+    | some s1 =>
+      rw [hs] at h
+      cases a with
+      | publish m =>
+        simp only [step] at hs
+        by_cases hc : s.subscribed ∧ m.topic = topic
+        · rw [if_pos hc] at hs
+          cases hs
+          have := ih _ s' h hsub
+          rw [this]
+          simp [pubsBeforeUnsub, brokerDeliver, hc.2]
+        · rw [if_neg hc] at hs
+          cases hs
+          have := ih _ s' h hsub
+          rw [this]
+          have hne : ¬ m.topic = topic := fun he => hc ⟨hsub, he⟩
+          simp [pubsBeforeUnsub, brokerDeliver, hne]
+      | work =>
+        simp only [step] at hs
+        cases hq : s.queue with
+        | nil => rw [hq] at hs; cases hs
+        | cons p q =>
+          rw [hq] at hs
+          cases hs
+          have := ih _ s' h hsub
+          rw [this]
+          simp [pubsBeforeUnsub]
+      | unsubscribe =>
+        simp only [step] at hs
+        cases hs
+        obtain ⟨e, n, _, ha, _, hn⟩ := run_ext c topic t _ s' h
+        rw [ha, hn rfl]
+        simp [pubsBeforeUnsub, brokerDeliver]
+      | abandon =>
+        simp only [step] at hs
+        by_cases hq : s.quit = true
+        · rw [if_pos hq] at hs
+          cases hs
+          have := ih _ s' h hsub
+          rw [this]
+          simp [pubsBeforeUnsub]
+        · rw [if_neg hq] at hs; cases hs
+
+theorem pubsBeforeUnsub_append_unsub (as bs : List Act) :
+    pubsBeforeUnsub (as ++ Act.unsubscribe :: bs) = pubsBeforeUnsub as := by
+  induction as with
+  | nil => rfl
+  | cons a t ih => cases a <;> simp [pubsBeforeUnsub, ih]
+
+theorem run_append (c : SubCfg) (topic : Topic) (as bs : List Act) : ∀ (s : St),
+    run c topic s (as ++ bs) = (run c topic s as).bind (fun s1 => run c topic s1 bs) := by
+  induction as with
+  | nil => intro s; rfl
+  | cons a t ih =>
+    intro s
+    simp only [List.cons_append, run]
+    cases step c topic s a with
+    | none => rfl
+    | some s1 => exact ih s1
+
+/-! ### go-stomp hand-over -/
+
+def Stomp.mu (s : Stomp) : Nat := 2 * s.frames.length + s.subC
+
+theorem sstep_mu (s s' : Stomp) (a : SAct) (h : sstep s a = some s') : s'.mu < s.mu := by
+  cases a with
+  | handOver =>
+    simp only [sstep] at h
+    cases hf : s.frames with
+    | nil => rw [hf] at h; cases h
+    | cons b fs =>
+      rw [hf] at h
+      cases b with
+      | false => cases h
+      | true =>
+        by_cases hc : s.subC < s.cap
+        · simp only [hc, if_true] at h; cases h; simp [Stomp.mu, hf] <;> omega
+        · simp only [hc, if_false] at h; cases h
+  | receipt =>
+    simp only [sstep] at h
+    cases hf : s.frames with
+    | nil => rw [hf] at h; cases h
+    | cons b fs =>
+      rw [hf] at h
+      cases b with
+      | true => cases h
+      | false => cases h; simp [Stomp.mu, hf] <;> omega
+  | drain =>
+    simp only [sstep] at h
+    by_cases hc : s.loopRunning ∧ 0 < s.subC
+    · rw [if_pos hc] at h; cases h; simp [Stomp.mu] <;> omega
+    · rw [if_neg hc] at h; cases h
+
+/-- Invariant of the fixed order: the loop runs, and while not closed the RECEIPT is still to come. -/
+def Stomp.Good (s : Stomp) : Prop :=
+  s.loopRunning = true ∧ 1 ≤ s.cap ∧ s.subC ≤ s.cap ∧ (s.closed = false → false ∈ s.frames)
+
+theorem good_waiting (cap k : Nat) (hc : 1 ≤ cap) : (Stomp.waiting cap k false).Good := by
+  refine ⟨rfl, hc, Nat.zero_le _, fun _ => ?_⟩
+  simp [Stomp.waiting]
+
+theorem good_step (s s' : Stomp) (a : SAct) (hg : s.Good) (h : sstep s a = some s') : s'.Good := by
+  obtain ⟨hl, hc, hle, hr⟩ := hg
+  cases a with
+  | handOver =>
+    simp only [sstep] at h
+    cases hf : s.frames with
+    | nil => rw [hf] at h; cases h
+    | cons b fs =>
+      rw [hf] at h
+      cases b with
+      | false => cases h
+      | true =>
+        by_cases hlt : s.subC < s.cap
+        · simp only [hlt, if_true] at h
+          cases h
+          refine ⟨hl, hc, by simp; omega, fun hcl => ?_⟩
+          have := hr hcl
+          rw [hf] at this
+          simpa using this
+        · simp only [hlt, if_false] at h; cases h
+  | receipt =>
+    simp only [sstep] at h
+    cases hf : s.frames with
+    | nil => rw [hf] at h; cases h
+    | cons b fs =>
+      rw [hf] at h
+      cases b with
+      | true => cases h
+      | false => cases h; exact ⟨hl, hc, hle, fun hcl => by simp at hcl⟩
+  | drain =>
+    simp only [sstep] at h
+    by_cases hd : s.loopRunning ∧ 0 < s.subC
+    · rw [if_pos hd] at h; cases h; exact ⟨hl, hc, by simp; omega, hr⟩
+    · rw [if_neg hd] at h; cases h
+
+theorem good_progress (s : Stomp) (hg : s.Good) (hcl : s.closed = false) : ∃ a s', sstep s a = some s' := by
+  obtain ⟨hl, hc, hle, hr⟩ := hg
+  have hm := hr hcl
+  cases hf : s.frames with
+  | nil => rw [hf] at hm; cases hm
+  | cons b fs =>
+    cases b with
+    | false => exact ⟨.receipt, { s with frames := fs, closed := true }, by simp only [sstep, hf]⟩
+    | true =>
+      by_cases hlt : s.subC < s.cap
+      · exact ⟨.handOver, { s with frames := fs, subC := s.subC + 1 }, by simp only [sstep, hf, hlt, if_true]⟩
+      · have hpos : 0 < s.subC := by omega
+        exact ⟨.drain, { s with subC := s.subC - 1 }, by simp only [sstep, hl, hpos, and_self, if_true]⟩
+
+def srun : Stomp → List SAct → Option Stomp
+  | s, [] => some s
+  | s, a :: as => match sstep s a with
+    | some s' => srun s' as
+    | none => none
+
+theorem good_run (as : List SAct) : ∀ (s s' : Stomp), s.Good → srun s as = some s' → s'.Good := by
+  induction as with
+  | nil => intro s s' hg h; simp only [srun] at h; cases h; exact hg
+  | cons a t ih =>
+    intro s s' hg h
+    simp only [srun] at h
+    cases hs : sstep s a with
+    | none => rw [hs] at h; cases h
+    | some s1 => rw [hs] at h; exact ih s1 s' (good_step s s1 a hg hs) h
 
 end FV.PubSub
